@@ -25,6 +25,24 @@ class Table:
         return "Table(%r)" % (self.pairs if self.pairs is not None else self.items)
 
 
+class Ptr:
+    """a smart pointer (QSharedPointer, std::shared_ptr, std::unique_ptr) of which only emptiness is known"""
+    def __init__(self, null):
+        self.null = bool(null)
+
+    def __eq__(self, other):
+        return isinstance(other, Ptr) and other.null and self.null
+
+    def __hash__(self):
+        return hash(("ptr", self.null))
+
+    def __repr__(self):
+        return "Ptr(%s)" % ("null" if self.null else "object")
+
+
+SMART_POINTERS = ("QSharedPointer", "std::shared_ptr", "std::unique_ptr", "QScopedPointer", "std::__shared_ptr")
+
+
 class Opt:
     """std::optional / QVariant-like maybe-value: v is None when empty"""
     def __init__(self, v=None):
@@ -200,6 +218,8 @@ class Conc:
     def truth(self, v):
         if isinstance(v, Opt):
             return v.v is not None
+        if isinstance(v, Ptr):
+            return not v.null
         if isinstance(v, int):
             return bool(v)
         raise Unknown("condition is not an integer")
@@ -280,6 +300,16 @@ class Conc:
             t = strip_tmpl((n.get("class") or n.get("type") or "").replace("const ", ""))
             args = n.get("args") if n.get("k") == "construct" else n.get("els")
             args = [a for a in (args or []) if isinstance(a, dict) and a.get("k") != "defaultarg"]
+            if t in SMART_POINTERS:
+                if not args:
+                    return Ptr(True)
+                if len(args) == 1:
+                    v_ = self.eval(args[0], env, depth) if skip_copies(args[0]).get("k") != "new" else Ptr(False)
+                    if isinstance(v_, Ptr):
+                        return v_
+                    if v_ == 0 and skip_copies(args[0]).get("k") in ("nullptr", "int"):
+                        return Ptr(True)
+                raise Unknown("value of a %s object" % t)
             if t in STRING_TYPES:
                 if not args:
                     return ""
@@ -355,6 +385,21 @@ class Conc:
             self.store(args[0], v, env)
             return v
         obj = n.get("obj")
+        if short in ("create", "make_shared", "make_unique") and n.get("ck") != "member" and (strip_tmpl(n.get("cls") or "") in SMART_POINTERS or callee.startswith("std::make_")):
+            return Ptr(False)           # a freshly created object (its constructor is not run: only emptiness is modelled)
+        if n.get("ck") == "member" and isinstance(obj, dict) and strip_tmpl(n.get("cls") or "") in SMART_POINTERS:
+            o = self.eval(obj, env, depth)
+            if isinstance(o, Ptr):
+                if short in ("isNull",):
+                    return int(o.null)
+                if short in ("operator bool", "operator RestrictedBool") or n.get("conv"):
+                    return int(not o.null)
+                if short == "operator!":
+                    return int(o.null)
+                if short in ("reset", "clear") and not [a for a in args if a.get("k") != "defaultarg"]:
+                    self.store(obj, Ptr(True), env)
+                    return 0
+            raise Unknown("smart pointer method %s" % short)
         if n.get("ck") == "member" and isinstance(obj, dict) and strip_tmpl(n.get("cls") or "") in ("std::optional", "std::_Optional_base", "std::_Optional_base_impl"):
             o = self.eval(obj, env, depth)
             if isinstance(o, Opt):
@@ -747,7 +792,16 @@ class Conc:
 
     def havoc(self, s, env, but=None):
         """forget every local and own field a statement outside the fragment mentions (it may have changed them)"""
+        # a smart pointer that is only dereferenced (p->field = ..., *p, p.data()) keeps its emptiness: the statement works on the pointee
+        deref_only = set()
         for x in walk(s):
+            if x.get("k") == "call" and strip_tmpl(x.get("cls") or "") in SMART_POINTERS and (x.get("op") in ("->", "*") or (x.get("callee") or "").split("::")[-1] in ("operator->", "operator*", "data", "get", "isNull", "operator bool")):
+                o_ = skip_copies(x.get("obj") if x.get("ck") == "member" else (x.get("args") or [None])[0])
+                if isinstance(o_, dict) and o_.get("k") == "ref":
+                    deref_only.add(o_.get("id"))
+        for x in walk(s):
+            if x.get("k") == "ref" and x.get("id") in deref_only and isinstance(env.get(x.get("decl")), Ptr):
+                continue
             if x.get("k") == "ref" and x.get("decl") and x.get("dk") in ("local", "param", "staticlocal") and x["decl"] != but:
                 if x["decl"] in env or True:
                     env.pop(x["decl"], None)
